@@ -587,4 +587,20 @@ def concrete : Codecs Val String where
 /-- `BaseSliver.__init__`: everything None except `stitch_node = False` -/
 def freshFields : Fields Val := Fields.empty.set "stitch_node" (some (.bool false))
 
+/-- a value of the generated `freshDefaults` table -/
+def valOfDefault (tag text : String) : Option Val :=
+  if tag = "bool" then some (.bool (text == "true"))
+  else if tag = "str" then some (.str text)
+  else if tag.toList.take 5 = "enum:".toList then some (.enum (String.ofList (tag.toList.drop 5)) text)
+  else none
+
+/-- `<SliverClass>()` of kind `k` before any setter ran, from the probed `freshDefaults` table (a kind the table does
+not list: the base class's `freshFields`) -/
+def freshOf (k : Kind) : Fields Val :=
+  match freshDefaults.find? (fun e => e.1 == k) with
+  | none => freshFields
+  | some e => e.2.foldl (fun f d => match valOfDefault d.2.1 d.2.2 with
+      | some v => f.set d.1 (some v)
+      | none => f) Fields.empty
+
 end FimVerif.Sliver
